@@ -67,7 +67,9 @@ Inductive kpc :=
 
 Inductive npc := NIdle | NTake (stale : bool) | NHold.       (* unparker: after swap(true) that returned false / holding the coroutine *)
 Inductive cpc := CIdle | CTakeCo | CTake | CTakeS | CHold.   (* canceller *)
-Inductive tmst := TmNone | TmArmed (dl : Z) | TmCanc (dl : Z) | TmFired (dl : Z) | TmHold (dl : Z) | TmDone.
+(* a timer entry: armed (linked) / removal requested by remove_timeout_handle but still linked / popped by the timer
+   thread, callback pending / the callback has taken the coroutine / gone.  Its deadline is [tdl]. *)
+Inductive tmst := TmNone | TmArmed | TmCanc | TmFired | TmHold | TmDone.
 Inductive hold := HNone | HUn (i : nat) | HCn (i : nat) | HTm (i : nat).
 Inductive wake := WNone | WUn (stale : bool) | WTm (spur : bool) | WCn | WSelfTok | WSelfTmo.
 
@@ -92,6 +94,7 @@ Record st := {
   un : nat -> npc;
   cn : nat -> cpc;
   tm : nat -> tmst;
+  tdl : nat -> Z;
   ntm : nat;
   now : Z;
   nested : bool;
@@ -110,75 +113,77 @@ Record st := {
 }.
 
 Definition set_pstate (v : bool) (s : st) : st :=
-  {| pstate := v; slot := slot s; wk := wk s; tmo := tmo s; hnd := hnd s; ccheck := ccheck s; cbit := cbit s; cdis := cdis s; cco := cco s; para := para s; running := running s; rq := rq s; up := up s; ud := ud s; kp := kp s; kdur := kdur s; kdl := kdl s; un := un s; cn := cn s; tm := tm s; ntm := ntm s; now := now s; nested := nested s; dropping := dropping s; oldk := oldk s; holder := holder s; tcall := tcall s; tok0 := tok0 s; ctok := ctok s; wsrc := wsrc s; nclr := nclr s; lastv := lastv s; tainted := tainted s; susp := susp s; ncall := ncall s |}.
+  {| pstate := v; slot := slot s; wk := wk s; tmo := tmo s; hnd := hnd s; ccheck := ccheck s; cbit := cbit s; cdis := cdis s; cco := cco s; para := para s; running := running s; rq := rq s; up := up s; ud := ud s; kp := kp s; kdur := kdur s; kdl := kdl s; un := un s; cn := cn s; tm := tm s; tdl := tdl s; ntm := ntm s; now := now s; nested := nested s; dropping := dropping s; oldk := oldk s; holder := holder s; tcall := tcall s; tok0 := tok0 s; ctok := ctok s; wsrc := wsrc s; nclr := nclr s; lastv := lastv s; tainted := tainted s; susp := susp s; ncall := ncall s |}.
 Definition set_slot (v : bool) (s : st) : st :=
-  {| pstate := pstate s; slot := v; wk := wk s; tmo := tmo s; hnd := hnd s; ccheck := ccheck s; cbit := cbit s; cdis := cdis s; cco := cco s; para := para s; running := running s; rq := rq s; up := up s; ud := ud s; kp := kp s; kdur := kdur s; kdl := kdl s; un := un s; cn := cn s; tm := tm s; ntm := ntm s; now := now s; nested := nested s; dropping := dropping s; oldk := oldk s; holder := holder s; tcall := tcall s; tok0 := tok0 s; ctok := ctok s; wsrc := wsrc s; nclr := nclr s; lastv := lastv s; tainted := tainted s; susp := susp s; ncall := ncall s |}.
+  {| pstate := pstate s; slot := v; wk := wk s; tmo := tmo s; hnd := hnd s; ccheck := ccheck s; cbit := cbit s; cdis := cdis s; cco := cco s; para := para s; running := running s; rq := rq s; up := up s; ud := ud s; kp := kp s; kdur := kdur s; kdl := kdl s; un := un s; cn := cn s; tm := tm s; tdl := tdl s; ntm := ntm s; now := now s; nested := nested s; dropping := dropping s; oldk := oldk s; holder := holder s; tcall := tcall s; tok0 := tok0 s; ctok := ctok s; wsrc := wsrc s; nclr := nclr s; lastv := lastv s; tainted := tainted s; susp := susp s; ncall := ncall s |}.
 Definition set_wk (v : bool) (s : st) : st :=
-  {| pstate := pstate s; slot := slot s; wk := v; tmo := tmo s; hnd := hnd s; ccheck := ccheck s; cbit := cbit s; cdis := cdis s; cco := cco s; para := para s; running := running s; rq := rq s; up := up s; ud := ud s; kp := kp s; kdur := kdur s; kdl := kdl s; un := un s; cn := cn s; tm := tm s; ntm := ntm s; now := now s; nested := nested s; dropping := dropping s; oldk := oldk s; holder := holder s; tcall := tcall s; tok0 := tok0 s; ctok := ctok s; wsrc := wsrc s; nclr := nclr s; lastv := lastv s; tainted := tainted s; susp := susp s; ncall := ncall s |}.
+  {| pstate := pstate s; slot := slot s; wk := v; tmo := tmo s; hnd := hnd s; ccheck := ccheck s; cbit := cbit s; cdis := cdis s; cco := cco s; para := para s; running := running s; rq := rq s; up := up s; ud := ud s; kp := kp s; kdur := kdur s; kdl := kdl s; un := un s; cn := cn s; tm := tm s; tdl := tdl s; ntm := ntm s; now := now s; nested := nested s; dropping := dropping s; oldk := oldk s; holder := holder s; tcall := tcall s; tok0 := tok0 s; ctok := ctok s; wsrc := wsrc s; nclr := nclr s; lastv := lastv s; tainted := tainted s; susp := susp s; ncall := ncall s |}.
 Definition set_tmo (v : Z) (s : st) : st :=
-  {| pstate := pstate s; slot := slot s; wk := wk s; tmo := v; hnd := hnd s; ccheck := ccheck s; cbit := cbit s; cdis := cdis s; cco := cco s; para := para s; running := running s; rq := rq s; up := up s; ud := ud s; kp := kp s; kdur := kdur s; kdl := kdl s; un := un s; cn := cn s; tm := tm s; ntm := ntm s; now := now s; nested := nested s; dropping := dropping s; oldk := oldk s; holder := holder s; tcall := tcall s; tok0 := tok0 s; ctok := ctok s; wsrc := wsrc s; nclr := nclr s; lastv := lastv s; tainted := tainted s; susp := susp s; ncall := ncall s |}.
+  {| pstate := pstate s; slot := slot s; wk := wk s; tmo := v; hnd := hnd s; ccheck := ccheck s; cbit := cbit s; cdis := cdis s; cco := cco s; para := para s; running := running s; rq := rq s; up := up s; ud := ud s; kp := kp s; kdur := kdur s; kdl := kdl s; un := un s; cn := cn s; tm := tm s; tdl := tdl s; ntm := ntm s; now := now s; nested := nested s; dropping := dropping s; oldk := oldk s; holder := holder s; tcall := tcall s; tok0 := tok0 s; ctok := ctok s; wsrc := wsrc s; nclr := nclr s; lastv := lastv s; tainted := tainted s; susp := susp s; ncall := ncall s |}.
 Definition set_hnd (v : option nat) (s : st) : st :=
-  {| pstate := pstate s; slot := slot s; wk := wk s; tmo := tmo s; hnd := v; ccheck := ccheck s; cbit := cbit s; cdis := cdis s; cco := cco s; para := para s; running := running s; rq := rq s; up := up s; ud := ud s; kp := kp s; kdur := kdur s; kdl := kdl s; un := un s; cn := cn s; tm := tm s; ntm := ntm s; now := now s; nested := nested s; dropping := dropping s; oldk := oldk s; holder := holder s; tcall := tcall s; tok0 := tok0 s; ctok := ctok s; wsrc := wsrc s; nclr := nclr s; lastv := lastv s; tainted := tainted s; susp := susp s; ncall := ncall s |}.
+  {| pstate := pstate s; slot := slot s; wk := wk s; tmo := tmo s; hnd := v; ccheck := ccheck s; cbit := cbit s; cdis := cdis s; cco := cco s; para := para s; running := running s; rq := rq s; up := up s; ud := ud s; kp := kp s; kdur := kdur s; kdl := kdl s; un := un s; cn := cn s; tm := tm s; tdl := tdl s; ntm := ntm s; now := now s; nested := nested s; dropping := dropping s; oldk := oldk s; holder := holder s; tcall := tcall s; tok0 := tok0 s; ctok := ctok s; wsrc := wsrc s; nclr := nclr s; lastv := lastv s; tainted := tainted s; susp := susp s; ncall := ncall s |}.
 Definition set_ccheck (v : bool) (s : st) : st :=
-  {| pstate := pstate s; slot := slot s; wk := wk s; tmo := tmo s; hnd := hnd s; ccheck := v; cbit := cbit s; cdis := cdis s; cco := cco s; para := para s; running := running s; rq := rq s; up := up s; ud := ud s; kp := kp s; kdur := kdur s; kdl := kdl s; un := un s; cn := cn s; tm := tm s; ntm := ntm s; now := now s; nested := nested s; dropping := dropping s; oldk := oldk s; holder := holder s; tcall := tcall s; tok0 := tok0 s; ctok := ctok s; wsrc := wsrc s; nclr := nclr s; lastv := lastv s; tainted := tainted s; susp := susp s; ncall := ncall s |}.
+  {| pstate := pstate s; slot := slot s; wk := wk s; tmo := tmo s; hnd := hnd s; ccheck := v; cbit := cbit s; cdis := cdis s; cco := cco s; para := para s; running := running s; rq := rq s; up := up s; ud := ud s; kp := kp s; kdur := kdur s; kdl := kdl s; un := un s; cn := cn s; tm := tm s; tdl := tdl s; ntm := ntm s; now := now s; nested := nested s; dropping := dropping s; oldk := oldk s; holder := holder s; tcall := tcall s; tok0 := tok0 s; ctok := ctok s; wsrc := wsrc s; nclr := nclr s; lastv := lastv s; tainted := tainted s; susp := susp s; ncall := ncall s |}.
 Definition set_cbit (v : bool) (s : st) : st :=
-  {| pstate := pstate s; slot := slot s; wk := wk s; tmo := tmo s; hnd := hnd s; ccheck := ccheck s; cbit := v; cdis := cdis s; cco := cco s; para := para s; running := running s; rq := rq s; up := up s; ud := ud s; kp := kp s; kdur := kdur s; kdl := kdl s; un := un s; cn := cn s; tm := tm s; ntm := ntm s; now := now s; nested := nested s; dropping := dropping s; oldk := oldk s; holder := holder s; tcall := tcall s; tok0 := tok0 s; ctok := ctok s; wsrc := wsrc s; nclr := nclr s; lastv := lastv s; tainted := tainted s; susp := susp s; ncall := ncall s |}.
+  {| pstate := pstate s; slot := slot s; wk := wk s; tmo := tmo s; hnd := hnd s; ccheck := ccheck s; cbit := v; cdis := cdis s; cco := cco s; para := para s; running := running s; rq := rq s; up := up s; ud := ud s; kp := kp s; kdur := kdur s; kdl := kdl s; un := un s; cn := cn s; tm := tm s; tdl := tdl s; ntm := ntm s; now := now s; nested := nested s; dropping := dropping s; oldk := oldk s; holder := holder s; tcall := tcall s; tok0 := tok0 s; ctok := ctok s; wsrc := wsrc s; nclr := nclr s; lastv := lastv s; tainted := tainted s; susp := susp s; ncall := ncall s |}.
 Definition set_cdis (v : bool) (s : st) : st :=
-  {| pstate := pstate s; slot := slot s; wk := wk s; tmo := tmo s; hnd := hnd s; ccheck := ccheck s; cbit := cbit s; cdis := v; cco := cco s; para := para s; running := running s; rq := rq s; up := up s; ud := ud s; kp := kp s; kdur := kdur s; kdl := kdl s; un := un s; cn := cn s; tm := tm s; ntm := ntm s; now := now s; nested := nested s; dropping := dropping s; oldk := oldk s; holder := holder s; tcall := tcall s; tok0 := tok0 s; ctok := ctok s; wsrc := wsrc s; nclr := nclr s; lastv := lastv s; tainted := tainted s; susp := susp s; ncall := ncall s |}.
+  {| pstate := pstate s; slot := slot s; wk := wk s; tmo := tmo s; hnd := hnd s; ccheck := ccheck s; cbit := cbit s; cdis := v; cco := cco s; para := para s; running := running s; rq := rq s; up := up s; ud := ud s; kp := kp s; kdur := kdur s; kdl := kdl s; un := un s; cn := cn s; tm := tm s; tdl := tdl s; ntm := ntm s; now := now s; nested := nested s; dropping := dropping s; oldk := oldk s; holder := holder s; tcall := tcall s; tok0 := tok0 s; ctok := ctok s; wsrc := wsrc s; nclr := nclr s; lastv := lastv s; tainted := tainted s; susp := susp s; ncall := ncall s |}.
 Definition set_cco (v : cslot) (s : st) : st :=
-  {| pstate := pstate s; slot := slot s; wk := wk s; tmo := tmo s; hnd := hnd s; ccheck := ccheck s; cbit := cbit s; cdis := cdis s; cco := v; para := para s; running := running s; rq := rq s; up := up s; ud := ud s; kp := kp s; kdur := kdur s; kdl := kdl s; un := un s; cn := cn s; tm := tm s; ntm := ntm s; now := now s; nested := nested s; dropping := dropping s; oldk := oldk s; holder := holder s; tcall := tcall s; tok0 := tok0 s; ctok := ctok s; wsrc := wsrc s; nclr := nclr s; lastv := lastv s; tainted := tainted s; susp := susp s; ncall := ncall s |}.
+  {| pstate := pstate s; slot := slot s; wk := wk s; tmo := tmo s; hnd := hnd s; ccheck := ccheck s; cbit := cbit s; cdis := cdis s; cco := v; para := para s; running := running s; rq := rq s; up := up s; ud := ud s; kp := kp s; kdur := kdur s; kdl := kdl s; un := un s; cn := cn s; tm := tm s; tdl := tdl s; ntm := ntm s; now := now s; nested := nested s; dropping := dropping s; oldk := oldk s; holder := holder s; tcall := tcall s; tok0 := tok0 s; ctok := ctok s; wsrc := wsrc s; nclr := nclr s; lastv := lastv s; tainted := tainted s; susp := susp s; ncall := ncall s |}.
 Definition set_para (v : option perr) (s : st) : st :=
-  {| pstate := pstate s; slot := slot s; wk := wk s; tmo := tmo s; hnd := hnd s; ccheck := ccheck s; cbit := cbit s; cdis := cdis s; cco := cco s; para := v; running := running s; rq := rq s; up := up s; ud := ud s; kp := kp s; kdur := kdur s; kdl := kdl s; un := un s; cn := cn s; tm := tm s; ntm := ntm s; now := now s; nested := nested s; dropping := dropping s; oldk := oldk s; holder := holder s; tcall := tcall s; tok0 := tok0 s; ctok := ctok s; wsrc := wsrc s; nclr := nclr s; lastv := lastv s; tainted := tainted s; susp := susp s; ncall := ncall s |}.
+  {| pstate := pstate s; slot := slot s; wk := wk s; tmo := tmo s; hnd := hnd s; ccheck := ccheck s; cbit := cbit s; cdis := cdis s; cco := cco s; para := v; running := running s; rq := rq s; up := up s; ud := ud s; kp := kp s; kdur := kdur s; kdl := kdl s; un := un s; cn := cn s; tm := tm s; tdl := tdl s; ntm := ntm s; now := now s; nested := nested s; dropping := dropping s; oldk := oldk s; holder := holder s; tcall := tcall s; tok0 := tok0 s; ctok := ctok s; wsrc := wsrc s; nclr := nclr s; lastv := lastv s; tainted := tainted s; susp := susp s; ncall := ncall s |}.
 Definition set_running (v : bool) (s : st) : st :=
-  {| pstate := pstate s; slot := slot s; wk := wk s; tmo := tmo s; hnd := hnd s; ccheck := ccheck s; cbit := cbit s; cdis := cdis s; cco := cco s; para := para s; running := v; rq := rq s; up := up s; ud := ud s; kp := kp s; kdur := kdur s; kdl := kdl s; un := un s; cn := cn s; tm := tm s; ntm := ntm s; now := now s; nested := nested s; dropping := dropping s; oldk := oldk s; holder := holder s; tcall := tcall s; tok0 := tok0 s; ctok := ctok s; wsrc := wsrc s; nclr := nclr s; lastv := lastv s; tainted := tainted s; susp := susp s; ncall := ncall s |}.
+  {| pstate := pstate s; slot := slot s; wk := wk s; tmo := tmo s; hnd := hnd s; ccheck := ccheck s; cbit := cbit s; cdis := cdis s; cco := cco s; para := para s; running := v; rq := rq s; up := up s; ud := ud s; kp := kp s; kdur := kdur s; kdl := kdl s; un := un s; cn := cn s; tm := tm s; tdl := tdl s; ntm := ntm s; now := now s; nested := nested s; dropping := dropping s; oldk := oldk s; holder := holder s; tcall := tcall s; tok0 := tok0 s; ctok := ctok s; wsrc := wsrc s; nclr := nclr s; lastv := lastv s; tainted := tainted s; susp := susp s; ncall := ncall s |}.
 Definition set_rq (v : nat) (s : st) : st :=
-  {| pstate := pstate s; slot := slot s; wk := wk s; tmo := tmo s; hnd := hnd s; ccheck := ccheck s; cbit := cbit s; cdis := cdis s; cco := cco s; para := para s; running := running s; rq := v; up := up s; ud := ud s; kp := kp s; kdur := kdur s; kdl := kdl s; un := un s; cn := cn s; tm := tm s; ntm := ntm s; now := now s; nested := nested s; dropping := dropping s; oldk := oldk s; holder := holder s; tcall := tcall s; tok0 := tok0 s; ctok := ctok s; wsrc := wsrc s; nclr := nclr s; lastv := lastv s; tainted := tainted s; susp := susp s; ncall := ncall s |}.
+  {| pstate := pstate s; slot := slot s; wk := wk s; tmo := tmo s; hnd := hnd s; ccheck := ccheck s; cbit := cbit s; cdis := cdis s; cco := cco s; para := para s; running := running s; rq := v; up := up s; ud := ud s; kp := kp s; kdur := kdur s; kdl := kdl s; un := un s; cn := cn s; tm := tm s; tdl := tdl s; ntm := ntm s; now := now s; nested := nested s; dropping := dropping s; oldk := oldk s; holder := holder s; tcall := tcall s; tok0 := tok0 s; ctok := ctok s; wsrc := wsrc s; nclr := nclr s; lastv := lastv s; tainted := tainted s; susp := susp s; ncall := ncall s |}.
 Definition set_up (v : upc) (s : st) : st :=
-  {| pstate := pstate s; slot := slot s; wk := wk s; tmo := tmo s; hnd := hnd s; ccheck := ccheck s; cbit := cbit s; cdis := cdis s; cco := cco s; para := para s; running := running s; rq := rq s; up := v; ud := ud s; kp := kp s; kdur := kdur s; kdl := kdl s; un := un s; cn := cn s; tm := tm s; ntm := ntm s; now := now s; nested := nested s; dropping := dropping s; oldk := oldk s; holder := holder s; tcall := tcall s; tok0 := tok0 s; ctok := ctok s; wsrc := wsrc s; nclr := nclr s; lastv := lastv s; tainted := tainted s; susp := susp s; ncall := ncall s |}.
+  {| pstate := pstate s; slot := slot s; wk := wk s; tmo := tmo s; hnd := hnd s; ccheck := ccheck s; cbit := cbit s; cdis := cdis s; cco := cco s; para := para s; running := running s; rq := rq s; up := v; ud := ud s; kp := kp s; kdur := kdur s; kdl := kdl s; un := un s; cn := cn s; tm := tm s; tdl := tdl s; ntm := ntm s; now := now s; nested := nested s; dropping := dropping s; oldk := oldk s; holder := holder s; tcall := tcall s; tok0 := tok0 s; ctok := ctok s; wsrc := wsrc s; nclr := nclr s; lastv := lastv s; tainted := tainted s; susp := susp s; ncall := ncall s |}.
 Definition set_ud (v : option Z) (s : st) : st :=
-  {| pstate := pstate s; slot := slot s; wk := wk s; tmo := tmo s; hnd := hnd s; ccheck := ccheck s; cbit := cbit s; cdis := cdis s; cco := cco s; para := para s; running := running s; rq := rq s; up := up s; ud := v; kp := kp s; kdur := kdur s; kdl := kdl s; un := un s; cn := cn s; tm := tm s; ntm := ntm s; now := now s; nested := nested s; dropping := dropping s; oldk := oldk s; holder := holder s; tcall := tcall s; tok0 := tok0 s; ctok := ctok s; wsrc := wsrc s; nclr := nclr s; lastv := lastv s; tainted := tainted s; susp := susp s; ncall := ncall s |}.
+  {| pstate := pstate s; slot := slot s; wk := wk s; tmo := tmo s; hnd := hnd s; ccheck := ccheck s; cbit := cbit s; cdis := cdis s; cco := cco s; para := para s; running := running s; rq := rq s; up := up s; ud := v; kp := kp s; kdur := kdur s; kdl := kdl s; un := un s; cn := cn s; tm := tm s; tdl := tdl s; ntm := ntm s; now := now s; nested := nested s; dropping := dropping s; oldk := oldk s; holder := holder s; tcall := tcall s; tok0 := tok0 s; ctok := ctok s; wsrc := wsrc s; nclr := nclr s; lastv := lastv s; tainted := tainted s; susp := susp s; ncall := ncall s |}.
 Definition set_kp (v : kpc) (s : st) : st :=
-  {| pstate := pstate s; slot := slot s; wk := wk s; tmo := tmo s; hnd := hnd s; ccheck := ccheck s; cbit := cbit s; cdis := cdis s; cco := cco s; para := para s; running := running s; rq := rq s; up := up s; ud := ud s; kp := v; kdur := kdur s; kdl := kdl s; un := un s; cn := cn s; tm := tm s; ntm := ntm s; now := now s; nested := nested s; dropping := dropping s; oldk := oldk s; holder := holder s; tcall := tcall s; tok0 := tok0 s; ctok := ctok s; wsrc := wsrc s; nclr := nclr s; lastv := lastv s; tainted := tainted s; susp := susp s; ncall := ncall s |}.
+  {| pstate := pstate s; slot := slot s; wk := wk s; tmo := tmo s; hnd := hnd s; ccheck := ccheck s; cbit := cbit s; cdis := cdis s; cco := cco s; para := para s; running := running s; rq := rq s; up := up s; ud := ud s; kp := v; kdur := kdur s; kdl := kdl s; un := un s; cn := cn s; tm := tm s; tdl := tdl s; ntm := ntm s; now := now s; nested := nested s; dropping := dropping s; oldk := oldk s; holder := holder s; tcall := tcall s; tok0 := tok0 s; ctok := ctok s; wsrc := wsrc s; nclr := nclr s; lastv := lastv s; tainted := tainted s; susp := susp s; ncall := ncall s |}.
 Definition set_kdur (v : option Z) (s : st) : st :=
-  {| pstate := pstate s; slot := slot s; wk := wk s; tmo := tmo s; hnd := hnd s; ccheck := ccheck s; cbit := cbit s; cdis := cdis s; cco := cco s; para := para s; running := running s; rq := rq s; up := up s; ud := ud s; kp := kp s; kdur := v; kdl := kdl s; un := un s; cn := cn s; tm := tm s; ntm := ntm s; now := now s; nested := nested s; dropping := dropping s; oldk := oldk s; holder := holder s; tcall := tcall s; tok0 := tok0 s; ctok := ctok s; wsrc := wsrc s; nclr := nclr s; lastv := lastv s; tainted := tainted s; susp := susp s; ncall := ncall s |}.
+  {| pstate := pstate s; slot := slot s; wk := wk s; tmo := tmo s; hnd := hnd s; ccheck := ccheck s; cbit := cbit s; cdis := cdis s; cco := cco s; para := para s; running := running s; rq := rq s; up := up s; ud := ud s; kp := kp s; kdur := v; kdl := kdl s; un := un s; cn := cn s; tm := tm s; tdl := tdl s; ntm := ntm s; now := now s; nested := nested s; dropping := dropping s; oldk := oldk s; holder := holder s; tcall := tcall s; tok0 := tok0 s; ctok := ctok s; wsrc := wsrc s; nclr := nclr s; lastv := lastv s; tainted := tainted s; susp := susp s; ncall := ncall s |}.
 Definition set_kdl (v : option Z) (s : st) : st :=
-  {| pstate := pstate s; slot := slot s; wk := wk s; tmo := tmo s; hnd := hnd s; ccheck := ccheck s; cbit := cbit s; cdis := cdis s; cco := cco s; para := para s; running := running s; rq := rq s; up := up s; ud := ud s; kp := kp s; kdur := kdur s; kdl := v; un := un s; cn := cn s; tm := tm s; ntm := ntm s; now := now s; nested := nested s; dropping := dropping s; oldk := oldk s; holder := holder s; tcall := tcall s; tok0 := tok0 s; ctok := ctok s; wsrc := wsrc s; nclr := nclr s; lastv := lastv s; tainted := tainted s; susp := susp s; ncall := ncall s |}.
+  {| pstate := pstate s; slot := slot s; wk := wk s; tmo := tmo s; hnd := hnd s; ccheck := ccheck s; cbit := cbit s; cdis := cdis s; cco := cco s; para := para s; running := running s; rq := rq s; up := up s; ud := ud s; kp := kp s; kdur := kdur s; kdl := v; un := un s; cn := cn s; tm := tm s; tdl := tdl s; ntm := ntm s; now := now s; nested := nested s; dropping := dropping s; oldk := oldk s; holder := holder s; tcall := tcall s; tok0 := tok0 s; ctok := ctok s; wsrc := wsrc s; nclr := nclr s; lastv := lastv s; tainted := tainted s; susp := susp s; ncall := ncall s |}.
 Definition set_un (v : nat -> npc) (s : st) : st :=
-  {| pstate := pstate s; slot := slot s; wk := wk s; tmo := tmo s; hnd := hnd s; ccheck := ccheck s; cbit := cbit s; cdis := cdis s; cco := cco s; para := para s; running := running s; rq := rq s; up := up s; ud := ud s; kp := kp s; kdur := kdur s; kdl := kdl s; un := v; cn := cn s; tm := tm s; ntm := ntm s; now := now s; nested := nested s; dropping := dropping s; oldk := oldk s; holder := holder s; tcall := tcall s; tok0 := tok0 s; ctok := ctok s; wsrc := wsrc s; nclr := nclr s; lastv := lastv s; tainted := tainted s; susp := susp s; ncall := ncall s |}.
+  {| pstate := pstate s; slot := slot s; wk := wk s; tmo := tmo s; hnd := hnd s; ccheck := ccheck s; cbit := cbit s; cdis := cdis s; cco := cco s; para := para s; running := running s; rq := rq s; up := up s; ud := ud s; kp := kp s; kdur := kdur s; kdl := kdl s; un := v; cn := cn s; tm := tm s; tdl := tdl s; ntm := ntm s; now := now s; nested := nested s; dropping := dropping s; oldk := oldk s; holder := holder s; tcall := tcall s; tok0 := tok0 s; ctok := ctok s; wsrc := wsrc s; nclr := nclr s; lastv := lastv s; tainted := tainted s; susp := susp s; ncall := ncall s |}.
 Definition set_cn (v : nat -> cpc) (s : st) : st :=
-  {| pstate := pstate s; slot := slot s; wk := wk s; tmo := tmo s; hnd := hnd s; ccheck := ccheck s; cbit := cbit s; cdis := cdis s; cco := cco s; para := para s; running := running s; rq := rq s; up := up s; ud := ud s; kp := kp s; kdur := kdur s; kdl := kdl s; un := un s; cn := v; tm := tm s; ntm := ntm s; now := now s; nested := nested s; dropping := dropping s; oldk := oldk s; holder := holder s; tcall := tcall s; tok0 := tok0 s; ctok := ctok s; wsrc := wsrc s; nclr := nclr s; lastv := lastv s; tainted := tainted s; susp := susp s; ncall := ncall s |}.
+  {| pstate := pstate s; slot := slot s; wk := wk s; tmo := tmo s; hnd := hnd s; ccheck := ccheck s; cbit := cbit s; cdis := cdis s; cco := cco s; para := para s; running := running s; rq := rq s; up := up s; ud := ud s; kp := kp s; kdur := kdur s; kdl := kdl s; un := un s; cn := v; tm := tm s; tdl := tdl s; ntm := ntm s; now := now s; nested := nested s; dropping := dropping s; oldk := oldk s; holder := holder s; tcall := tcall s; tok0 := tok0 s; ctok := ctok s; wsrc := wsrc s; nclr := nclr s; lastv := lastv s; tainted := tainted s; susp := susp s; ncall := ncall s |}.
 Definition set_tm (v : nat -> tmst) (s : st) : st :=
-  {| pstate := pstate s; slot := slot s; wk := wk s; tmo := tmo s; hnd := hnd s; ccheck := ccheck s; cbit := cbit s; cdis := cdis s; cco := cco s; para := para s; running := running s; rq := rq s; up := up s; ud := ud s; kp := kp s; kdur := kdur s; kdl := kdl s; un := un s; cn := cn s; tm := v; ntm := ntm s; now := now s; nested := nested s; dropping := dropping s; oldk := oldk s; holder := holder s; tcall := tcall s; tok0 := tok0 s; ctok := ctok s; wsrc := wsrc s; nclr := nclr s; lastv := lastv s; tainted := tainted s; susp := susp s; ncall := ncall s |}.
+  {| pstate := pstate s; slot := slot s; wk := wk s; tmo := tmo s; hnd := hnd s; ccheck := ccheck s; cbit := cbit s; cdis := cdis s; cco := cco s; para := para s; running := running s; rq := rq s; up := up s; ud := ud s; kp := kp s; kdur := kdur s; kdl := kdl s; un := un s; cn := cn s; tm := v; tdl := tdl s; ntm := ntm s; now := now s; nested := nested s; dropping := dropping s; oldk := oldk s; holder := holder s; tcall := tcall s; tok0 := tok0 s; ctok := ctok s; wsrc := wsrc s; nclr := nclr s; lastv := lastv s; tainted := tainted s; susp := susp s; ncall := ncall s |}.
+Definition set_tdl (v : nat -> Z) (s : st) : st :=
+  {| pstate := pstate s; slot := slot s; wk := wk s; tmo := tmo s; hnd := hnd s; ccheck := ccheck s; cbit := cbit s; cdis := cdis s; cco := cco s; para := para s; running := running s; rq := rq s; up := up s; ud := ud s; kp := kp s; kdur := kdur s; kdl := kdl s; un := un s; cn := cn s; tm := tm s; tdl := v; ntm := ntm s; now := now s; nested := nested s; dropping := dropping s; oldk := oldk s; holder := holder s; tcall := tcall s; tok0 := tok0 s; ctok := ctok s; wsrc := wsrc s; nclr := nclr s; lastv := lastv s; tainted := tainted s; susp := susp s; ncall := ncall s |}.
 Definition set_ntm (v : nat) (s : st) : st :=
-  {| pstate := pstate s; slot := slot s; wk := wk s; tmo := tmo s; hnd := hnd s; ccheck := ccheck s; cbit := cbit s; cdis := cdis s; cco := cco s; para := para s; running := running s; rq := rq s; up := up s; ud := ud s; kp := kp s; kdur := kdur s; kdl := kdl s; un := un s; cn := cn s; tm := tm s; ntm := v; now := now s; nested := nested s; dropping := dropping s; oldk := oldk s; holder := holder s; tcall := tcall s; tok0 := tok0 s; ctok := ctok s; wsrc := wsrc s; nclr := nclr s; lastv := lastv s; tainted := tainted s; susp := susp s; ncall := ncall s |}.
+  {| pstate := pstate s; slot := slot s; wk := wk s; tmo := tmo s; hnd := hnd s; ccheck := ccheck s; cbit := cbit s; cdis := cdis s; cco := cco s; para := para s; running := running s; rq := rq s; up := up s; ud := ud s; kp := kp s; kdur := kdur s; kdl := kdl s; un := un s; cn := cn s; tm := tm s; tdl := tdl s; ntm := v; now := now s; nested := nested s; dropping := dropping s; oldk := oldk s; holder := holder s; tcall := tcall s; tok0 := tok0 s; ctok := ctok s; wsrc := wsrc s; nclr := nclr s; lastv := lastv s; tainted := tainted s; susp := susp s; ncall := ncall s |}.
 Definition set_now (v : Z) (s : st) : st :=
-  {| pstate := pstate s; slot := slot s; wk := wk s; tmo := tmo s; hnd := hnd s; ccheck := ccheck s; cbit := cbit s; cdis := cdis s; cco := cco s; para := para s; running := running s; rq := rq s; up := up s; ud := ud s; kp := kp s; kdur := kdur s; kdl := kdl s; un := un s; cn := cn s; tm := tm s; ntm := ntm s; now := v; nested := nested s; dropping := dropping s; oldk := oldk s; holder := holder s; tcall := tcall s; tok0 := tok0 s; ctok := ctok s; wsrc := wsrc s; nclr := nclr s; lastv := lastv s; tainted := tainted s; susp := susp s; ncall := ncall s |}.
+  {| pstate := pstate s; slot := slot s; wk := wk s; tmo := tmo s; hnd := hnd s; ccheck := ccheck s; cbit := cbit s; cdis := cdis s; cco := cco s; para := para s; running := running s; rq := rq s; up := up s; ud := ud s; kp := kp s; kdur := kdur s; kdl := kdl s; un := un s; cn := cn s; tm := tm s; tdl := tdl s; ntm := ntm s; now := v; nested := nested s; dropping := dropping s; oldk := oldk s; holder := holder s; tcall := tcall s; tok0 := tok0 s; ctok := ctok s; wsrc := wsrc s; nclr := nclr s; lastv := lastv s; tainted := tainted s; susp := susp s; ncall := ncall s |}.
 Definition set_nested (v : bool) (s : st) : st :=
-  {| pstate := pstate s; slot := slot s; wk := wk s; tmo := tmo s; hnd := hnd s; ccheck := ccheck s; cbit := cbit s; cdis := cdis s; cco := cco s; para := para s; running := running s; rq := rq s; up := up s; ud := ud s; kp := kp s; kdur := kdur s; kdl := kdl s; un := un s; cn := cn s; tm := tm s; ntm := ntm s; now := now s; nested := v; dropping := dropping s; oldk := oldk s; holder := holder s; tcall := tcall s; tok0 := tok0 s; ctok := ctok s; wsrc := wsrc s; nclr := nclr s; lastv := lastv s; tainted := tainted s; susp := susp s; ncall := ncall s |}.
+  {| pstate := pstate s; slot := slot s; wk := wk s; tmo := tmo s; hnd := hnd s; ccheck := ccheck s; cbit := cbit s; cdis := cdis s; cco := cco s; para := para s; running := running s; rq := rq s; up := up s; ud := ud s; kp := kp s; kdur := kdur s; kdl := kdl s; un := un s; cn := cn s; tm := tm s; tdl := tdl s; ntm := ntm s; now := now s; nested := v; dropping := dropping s; oldk := oldk s; holder := holder s; tcall := tcall s; tok0 := tok0 s; ctok := ctok s; wsrc := wsrc s; nclr := nclr s; lastv := lastv s; tainted := tainted s; susp := susp s; ncall := ncall s |}.
 Definition set_dropping (v : bool) (s : st) : st :=
-  {| pstate := pstate s; slot := slot s; wk := wk s; tmo := tmo s; hnd := hnd s; ccheck := ccheck s; cbit := cbit s; cdis := cdis s; cco := cco s; para := para s; running := running s; rq := rq s; up := up s; ud := ud s; kp := kp s; kdur := kdur s; kdl := kdl s; un := un s; cn := cn s; tm := tm s; ntm := ntm s; now := now s; nested := nested s; dropping := v; oldk := oldk s; holder := holder s; tcall := tcall s; tok0 := tok0 s; ctok := ctok s; wsrc := wsrc s; nclr := nclr s; lastv := lastv s; tainted := tainted s; susp := susp s; ncall := ncall s |}.
+  {| pstate := pstate s; slot := slot s; wk := wk s; tmo := tmo s; hnd := hnd s; ccheck := ccheck s; cbit := cbit s; cdis := cdis s; cco := cco s; para := para s; running := running s; rq := rq s; up := up s; ud := ud s; kp := kp s; kdur := kdur s; kdl := kdl s; un := un s; cn := cn s; tm := tm s; tdl := tdl s; ntm := ntm s; now := now s; nested := nested s; dropping := v; oldk := oldk s; holder := holder s; tcall := tcall s; tok0 := tok0 s; ctok := ctok s; wsrc := wsrc s; nclr := nclr s; lastv := lastv s; tainted := tainted s; susp := susp s; ncall := ncall s |}.
 Definition set_oldk (v : nat) (s : st) : st :=
-  {| pstate := pstate s; slot := slot s; wk := wk s; tmo := tmo s; hnd := hnd s; ccheck := ccheck s; cbit := cbit s; cdis := cdis s; cco := cco s; para := para s; running := running s; rq := rq s; up := up s; ud := ud s; kp := kp s; kdur := kdur s; kdl := kdl s; un := un s; cn := cn s; tm := tm s; ntm := ntm s; now := now s; nested := nested s; dropping := dropping s; oldk := v; holder := holder s; tcall := tcall s; tok0 := tok0 s; ctok := ctok s; wsrc := wsrc s; nclr := nclr s; lastv := lastv s; tainted := tainted s; susp := susp s; ncall := ncall s |}.
+  {| pstate := pstate s; slot := slot s; wk := wk s; tmo := tmo s; hnd := hnd s; ccheck := ccheck s; cbit := cbit s; cdis := cdis s; cco := cco s; para := para s; running := running s; rq := rq s; up := up s; ud := ud s; kp := kp s; kdur := kdur s; kdl := kdl s; un := un s; cn := cn s; tm := tm s; tdl := tdl s; ntm := ntm s; now := now s; nested := nested s; dropping := dropping s; oldk := v; holder := holder s; tcall := tcall s; tok0 := tok0 s; ctok := ctok s; wsrc := wsrc s; nclr := nclr s; lastv := lastv s; tainted := tainted s; susp := susp s; ncall := ncall s |}.
 Definition set_holder (v : hold) (s : st) : st :=
-  {| pstate := pstate s; slot := slot s; wk := wk s; tmo := tmo s; hnd := hnd s; ccheck := ccheck s; cbit := cbit s; cdis := cdis s; cco := cco s; para := para s; running := running s; rq := rq s; up := up s; ud := ud s; kp := kp s; kdur := kdur s; kdl := kdl s; un := un s; cn := cn s; tm := tm s; ntm := ntm s; now := now s; nested := nested s; dropping := dropping s; oldk := oldk s; holder := v; tcall := tcall s; tok0 := tok0 s; ctok := ctok s; wsrc := wsrc s; nclr := nclr s; lastv := lastv s; tainted := tainted s; susp := susp s; ncall := ncall s |}.
+  {| pstate := pstate s; slot := slot s; wk := wk s; tmo := tmo s; hnd := hnd s; ccheck := ccheck s; cbit := cbit s; cdis := cdis s; cco := cco s; para := para s; running := running s; rq := rq s; up := up s; ud := ud s; kp := kp s; kdur := kdur s; kdl := kdl s; un := un s; cn := cn s; tm := tm s; tdl := tdl s; ntm := ntm s; now := now s; nested := nested s; dropping := dropping s; oldk := oldk s; holder := v; tcall := tcall s; tok0 := tok0 s; ctok := ctok s; wsrc := wsrc s; nclr := nclr s; lastv := lastv s; tainted := tainted s; susp := susp s; ncall := ncall s |}.
 Definition set_tcall (v : Z) (s : st) : st :=
-  {| pstate := pstate s; slot := slot s; wk := wk s; tmo := tmo s; hnd := hnd s; ccheck := ccheck s; cbit := cbit s; cdis := cdis s; cco := cco s; para := para s; running := running s; rq := rq s; up := up s; ud := ud s; kp := kp s; kdur := kdur s; kdl := kdl s; un := un s; cn := cn s; tm := tm s; ntm := ntm s; now := now s; nested := nested s; dropping := dropping s; oldk := oldk s; holder := holder s; tcall := v; tok0 := tok0 s; ctok := ctok s; wsrc := wsrc s; nclr := nclr s; lastv := lastv s; tainted := tainted s; susp := susp s; ncall := ncall s |}.
+  {| pstate := pstate s; slot := slot s; wk := wk s; tmo := tmo s; hnd := hnd s; ccheck := ccheck s; cbit := cbit s; cdis := cdis s; cco := cco s; para := para s; running := running s; rq := rq s; up := up s; ud := ud s; kp := kp s; kdur := kdur s; kdl := kdl s; un := un s; cn := cn s; tm := tm s; tdl := tdl s; ntm := ntm s; now := now s; nested := nested s; dropping := dropping s; oldk := oldk s; holder := holder s; tcall := v; tok0 := tok0 s; ctok := ctok s; wsrc := wsrc s; nclr := nclr s; lastv := lastv s; tainted := tainted s; susp := susp s; ncall := ncall s |}.
 Definition set_tok0 (v : bool) (s : st) : st :=
-  {| pstate := pstate s; slot := slot s; wk := wk s; tmo := tmo s; hnd := hnd s; ccheck := ccheck s; cbit := cbit s; cdis := cdis s; cco := cco s; para := para s; running := running s; rq := rq s; up := up s; ud := ud s; kp := kp s; kdur := kdur s; kdl := kdl s; un := un s; cn := cn s; tm := tm s; ntm := ntm s; now := now s; nested := nested s; dropping := dropping s; oldk := oldk s; holder := holder s; tcall := tcall s; tok0 := v; ctok := ctok s; wsrc := wsrc s; nclr := nclr s; lastv := lastv s; tainted := tainted s; susp := susp s; ncall := ncall s |}.
+  {| pstate := pstate s; slot := slot s; wk := wk s; tmo := tmo s; hnd := hnd s; ccheck := ccheck s; cbit := cbit s; cdis := cdis s; cco := cco s; para := para s; running := running s; rq := rq s; up := up s; ud := ud s; kp := kp s; kdur := kdur s; kdl := kdl s; un := un s; cn := cn s; tm := tm s; tdl := tdl s; ntm := ntm s; now := now s; nested := nested s; dropping := dropping s; oldk := oldk s; holder := holder s; tcall := tcall s; tok0 := v; ctok := ctok s; wsrc := wsrc s; nclr := nclr s; lastv := lastv s; tainted := tainted s; susp := susp s; ncall := ncall s |}.
 Definition set_ctok (v : bool) (s : st) : st :=
-  {| pstate := pstate s; slot := slot s; wk := wk s; tmo := tmo s; hnd := hnd s; ccheck := ccheck s; cbit := cbit s; cdis := cdis s; cco := cco s; para := para s; running := running s; rq := rq s; up := up s; ud := ud s; kp := kp s; kdur := kdur s; kdl := kdl s; un := un s; cn := cn s; tm := tm s; ntm := ntm s; now := now s; nested := nested s; dropping := dropping s; oldk := oldk s; holder := holder s; tcall := tcall s; tok0 := tok0 s; ctok := v; wsrc := wsrc s; nclr := nclr s; lastv := lastv s; tainted := tainted s; susp := susp s; ncall := ncall s |}.
+  {| pstate := pstate s; slot := slot s; wk := wk s; tmo := tmo s; hnd := hnd s; ccheck := ccheck s; cbit := cbit s; cdis := cdis s; cco := cco s; para := para s; running := running s; rq := rq s; up := up s; ud := ud s; kp := kp s; kdur := kdur s; kdl := kdl s; un := un s; cn := cn s; tm := tm s; tdl := tdl s; ntm := ntm s; now := now s; nested := nested s; dropping := dropping s; oldk := oldk s; holder := holder s; tcall := tcall s; tok0 := tok0 s; ctok := v; wsrc := wsrc s; nclr := nclr s; lastv := lastv s; tainted := tainted s; susp := susp s; ncall := ncall s |}.
 Definition set_wsrc (v : wake) (s : st) : st :=
-  {| pstate := pstate s; slot := slot s; wk := wk s; tmo := tmo s; hnd := hnd s; ccheck := ccheck s; cbit := cbit s; cdis := cdis s; cco := cco s; para := para s; running := running s; rq := rq s; up := up s; ud := ud s; kp := kp s; kdur := kdur s; kdl := kdl s; un := un s; cn := cn s; tm := tm s; ntm := ntm s; now := now s; nested := nested s; dropping := dropping s; oldk := oldk s; holder := holder s; tcall := tcall s; tok0 := tok0 s; ctok := ctok s; wsrc := v; nclr := nclr s; lastv := lastv s; tainted := tainted s; susp := susp s; ncall := ncall s |}.
+  {| pstate := pstate s; slot := slot s; wk := wk s; tmo := tmo s; hnd := hnd s; ccheck := ccheck s; cbit := cbit s; cdis := cdis s; cco := cco s; para := para s; running := running s; rq := rq s; up := up s; ud := ud s; kp := kp s; kdur := kdur s; kdl := kdl s; un := un s; cn := cn s; tm := tm s; tdl := tdl s; ntm := ntm s; now := now s; nested := nested s; dropping := dropping s; oldk := oldk s; holder := holder s; tcall := tcall s; tok0 := tok0 s; ctok := ctok s; wsrc := v; nclr := nclr s; lastv := lastv s; tainted := tainted s; susp := susp s; ncall := ncall s |}.
 Definition set_nclr (v : nat) (s : st) : st :=
-  {| pstate := pstate s; slot := slot s; wk := wk s; tmo := tmo s; hnd := hnd s; ccheck := ccheck s; cbit := cbit s; cdis := cdis s; cco := cco s; para := para s; running := running s; rq := rq s; up := up s; ud := ud s; kp := kp s; kdur := kdur s; kdl := kdl s; un := un s; cn := cn s; tm := tm s; ntm := ntm s; now := now s; nested := nested s; dropping := dropping s; oldk := oldk s; holder := holder s; tcall := tcall s; tok0 := tok0 s; ctok := ctok s; wsrc := wsrc s; nclr := v; lastv := lastv s; tainted := tainted s; susp := susp s; ncall := ncall s |}.
+  {| pstate := pstate s; slot := slot s; wk := wk s; tmo := tmo s; hnd := hnd s; ccheck := ccheck s; cbit := cbit s; cdis := cdis s; cco := cco s; para := para s; running := running s; rq := rq s; up := up s; ud := ud s; kp := kp s; kdur := kdur s; kdl := kdl s; un := un s; cn := cn s; tm := tm s; tdl := tdl s; ntm := ntm s; now := now s; nested := nested s; dropping := dropping s; oldk := oldk s; holder := holder s; tcall := tcall s; tok0 := tok0 s; ctok := ctok s; wsrc := wsrc s; nclr := v; lastv := lastv s; tainted := tainted s; susp := susp s; ncall := ncall s |}.
 Definition set_lastv (v : option verdict) (s : st) : st :=
-  {| pstate := pstate s; slot := slot s; wk := wk s; tmo := tmo s; hnd := hnd s; ccheck := ccheck s; cbit := cbit s; cdis := cdis s; cco := cco s; para := para s; running := running s; rq := rq s; up := up s; ud := ud s; kp := kp s; kdur := kdur s; kdl := kdl s; un := un s; cn := cn s; tm := tm s; ntm := ntm s; now := now s; nested := nested s; dropping := dropping s; oldk := oldk s; holder := holder s; tcall := tcall s; tok0 := tok0 s; ctok := ctok s; wsrc := wsrc s; nclr := nclr s; lastv := v; tainted := tainted s; susp := susp s; ncall := ncall s |}.
+  {| pstate := pstate s; slot := slot s; wk := wk s; tmo := tmo s; hnd := hnd s; ccheck := ccheck s; cbit := cbit s; cdis := cdis s; cco := cco s; para := para s; running := running s; rq := rq s; up := up s; ud := ud s; kp := kp s; kdur := kdur s; kdl := kdl s; un := un s; cn := cn s; tm := tm s; tdl := tdl s; ntm := ntm s; now := now s; nested := nested s; dropping := dropping s; oldk := oldk s; holder := holder s; tcall := tcall s; tok0 := tok0 s; ctok := ctok s; wsrc := wsrc s; nclr := nclr s; lastv := v; tainted := tainted s; susp := susp s; ncall := ncall s |}.
 Definition set_tainted (v : bool) (s : st) : st :=
-  {| pstate := pstate s; slot := slot s; wk := wk s; tmo := tmo s; hnd := hnd s; ccheck := ccheck s; cbit := cbit s; cdis := cdis s; cco := cco s; para := para s; running := running s; rq := rq s; up := up s; ud := ud s; kp := kp s; kdur := kdur s; kdl := kdl s; un := un s; cn := cn s; tm := tm s; ntm := ntm s; now := now s; nested := nested s; dropping := dropping s; oldk := oldk s; holder := holder s; tcall := tcall s; tok0 := tok0 s; ctok := ctok s; wsrc := wsrc s; nclr := nclr s; lastv := lastv s; tainted := v; susp := susp s; ncall := ncall s |}.
+  {| pstate := pstate s; slot := slot s; wk := wk s; tmo := tmo s; hnd := hnd s; ccheck := ccheck s; cbit := cbit s; cdis := cdis s; cco := cco s; para := para s; running := running s; rq := rq s; up := up s; ud := ud s; kp := kp s; kdur := kdur s; kdl := kdl s; un := un s; cn := cn s; tm := tm s; tdl := tdl s; ntm := ntm s; now := now s; nested := nested s; dropping := dropping s; oldk := oldk s; holder := holder s; tcall := tcall s; tok0 := tok0 s; ctok := ctok s; wsrc := wsrc s; nclr := nclr s; lastv := lastv s; tainted := v; susp := susp s; ncall := ncall s |}.
 Definition set_susp (v : bool) (s : st) : st :=
-  {| pstate := pstate s; slot := slot s; wk := wk s; tmo := tmo s; hnd := hnd s; ccheck := ccheck s; cbit := cbit s; cdis := cdis s; cco := cco s; para := para s; running := running s; rq := rq s; up := up s; ud := ud s; kp := kp s; kdur := kdur s; kdl := kdl s; un := un s; cn := cn s; tm := tm s; ntm := ntm s; now := now s; nested := nested s; dropping := dropping s; oldk := oldk s; holder := holder s; tcall := tcall s; tok0 := tok0 s; ctok := ctok s; wsrc := wsrc s; nclr := nclr s; lastv := lastv s; tainted := tainted s; susp := v; ncall := ncall s |}.
+  {| pstate := pstate s; slot := slot s; wk := wk s; tmo := tmo s; hnd := hnd s; ccheck := ccheck s; cbit := cbit s; cdis := cdis s; cco := cco s; para := para s; running := running s; rq := rq s; up := up s; ud := ud s; kp := kp s; kdur := kdur s; kdl := kdl s; un := un s; cn := cn s; tm := tm s; tdl := tdl s; ntm := ntm s; now := now s; nested := nested s; dropping := dropping s; oldk := oldk s; holder := holder s; tcall := tcall s; tok0 := tok0 s; ctok := ctok s; wsrc := wsrc s; nclr := nclr s; lastv := lastv s; tainted := tainted s; susp := v; ncall := ncall s |}.
 Definition set_ncall (v : nat) (s : st) : st :=
-  {| pstate := pstate s; slot := slot s; wk := wk s; tmo := tmo s; hnd := hnd s; ccheck := ccheck s; cbit := cbit s; cdis := cdis s; cco := cco s; para := para s; running := running s; rq := rq s; up := up s; ud := ud s; kp := kp s; kdur := kdur s; kdl := kdl s; un := un s; cn := cn s; tm := tm s; ntm := ntm s; now := now s; nested := nested s; dropping := dropping s; oldk := oldk s; holder := holder s; tcall := tcall s; tok0 := tok0 s; ctok := ctok s; wsrc := wsrc s; nclr := nclr s; lastv := lastv s; tainted := tainted s; susp := susp s; ncall := v |}.
+  {| pstate := pstate s; slot := slot s; wk := wk s; tmo := tmo s; hnd := hnd s; ccheck := ccheck s; cbit := cbit s; cdis := cdis s; cco := cco s; para := para s; running := running s; rq := rq s; up := up s; ud := ud s; kp := kp s; kdur := kdur s; kdl := kdl s; un := un s; cn := cn s; tm := tm s; tdl := tdl s; ntm := ntm s; now := now s; nested := nested s; dropping := dropping s; oldk := oldk s; holder := holder s; tcall := tcall s; tok0 := tok0 s; ctok := ctok s; wsrc := wsrc s; nclr := nclr s; lastv := lastv s; tainted := tainted s; susp := susp s; ncall := v |}.
 
 Definition upd {A} (f : nat -> A) (i : nat) (v : A) : nat -> A := fun j => if Nat.eqb j i then v else f j.
 Notation "x |> f" := (f x) (at level 50, left associativity, only parsing).
@@ -187,7 +192,7 @@ Definition init : st :=
   {| pstate := false; slot := false; wk := false; tmo := 0; hnd := None; ccheck := true;
      cbit := false; cdis := false; cco := CNone; para := None; running := true; rq := 0%nat;
      up := UIdle; ud := None; kp := KIdle; kdur := None; kdl := None;
-     un := fun _ => NIdle; cn := fun _ => CIdle; tm := fun _ => TmNone; ntm := 0%nat; now := 0;
+     un := fun _ => NIdle; cn := fun _ => CIdle; tm := fun _ => TmNone; tdl := fun _ => 0; ntm := 0%nat; now := 0;
      nested := false; dropping := false; oldk := 0%nat;
      holder := HNone; tcall := 0; tok0 := false; ctok := false; wsrc := WNone; nclr := 0%nat;
      lastv := None; tainted := false; susp := false; ncall := 0%nat |}.
@@ -267,7 +272,7 @@ Definition ustep (s : st) : option st :=
   | UCp2Swap => Some (clear_tok s |> set_ctok (pstate s) |> set_up URm)
   | URm => match hnd s with
            | Some i => Some (s |> set_hnd None
-                               |> set_tm (match tm s i with TmArmed dl => upd (tm s) i (TmCanc dl) | _ => tm s end)
+                               |> set_tm (match tm s i with TmArmed => upd (tm s) i TmCanc | _ => tm s end)
                                |> set_up UPara)
            | None => Some (s |> set_up UPara) end
   | UPara => Some (s |> set_lastv (Some (verdict_of (para s))) |> set_para None |> set_up UIdle)
@@ -282,7 +287,7 @@ Definition kstep (s : st) : option st :=
             | Some d => Some (s |> set_kdl (Some (now s + d)) |> set_kp KArm)
             | None => None end
   | KArm => match kdur s with
-            | Some d => Some (s |> set_tm (upd (tm s) (ntm s) (TmArmed (now s + d))) |> set_hnd (Some (ntm s))
+            | Some d => Some (s |> set_tm (upd (tm s) (ntm s) TmArmed) |> set_tdl (upd (tdl s) (ntm s) (now s + d)) |> set_hnd (Some (ntm s))
                                |> set_ntm (S (ntm s)) |> set_kp KHandle)
             | None => None end
   | KHandle => Some (s |> set_kp KGon)   (* the handle of the entry just armed ([hnd], set with KArm) is published; the old one is null *)
@@ -379,19 +384,19 @@ Definition step (s : st) (a : action) : option st :=
                   | CHold => Some (s |> set_para (Some PCanceled) |> set_rq (S (rq s)) |> set_cn (upd (cn s) i CIdle) |> set_holder HNone)
                   | _ => None end
   | ATFire i => match tm s i with
-                | TmArmed dl | TmCanc dl => if dl <=? now s then Some (s |> set_tm (upd (tm s) i (TmFired dl))) else None
+                | TmArmed | TmCanc => if tdl s i <=? now s then Some (s |> set_tm (upd (tm s) i TmFired)) else None
                 | _ => None end
   | ATDrop i => match tm s i with
-                | TmCanc dl => Some (s |> set_tm (upd (tm s) i TmDone))
+                | TmCanc => Some (s |> set_tm (upd (tm s) i TmDone))
                 | _ => None end
   | ATTake i => match tm s i with
-                | TmFired dl => if slot s
-                                then Some (s |> set_slot false |> set_tm (upd (tm s) i (TmHold dl)) |> set_holder (HTm i)
+                | TmFired => if slot s
+                                then Some (s |> set_slot false |> set_tm (upd (tm s) i TmHold) |> set_holder (HTm i)
                                              |> set_wsrc (WTm (negb (optnat_eqb (hnd s) (Some i)))))
                                 else Some (s |> set_tm (upd (tm s) i TmDone))
                 | _ => None end
   | ATRun i => match tm s i with
-               | TmHold dl => Some (s |> set_para (Some PTimeout) |> set_running true |> set_up UYb
+               | TmHold => Some (s |> set_para (Some PTimeout) |> set_running true |> set_up UYb
                                       |> set_tm (upd (tm s) i TmDone) |> set_holder HNone)
                | _ => None end
   | ATick d => if 0 <? d then Some (s |> set_now (now s + d)) else None
@@ -441,8 +446,8 @@ Definition places (s : st) : nat :=
 
 Definition timers_quiet (s : st) : Prop :=
   forall i, match tm s i with
-            | TmArmed dl | TmCanc dl => now s < dl
-            | TmFired _ | TmHold _ => False
+            | TmArmed | TmCanc => now s < tdl s i
+            | TmFired | TmHold => False
             | _ => True end.
 
 (* nobody but the clock and the client (a new unpark / cancel call) can move *)
